@@ -723,6 +723,78 @@ def bom_probe_stream():
 
 
 # ----------------------------------------------------------------------------------------------------------------------
+
+def history_stream(ctx):
+    """The result of a call must not depend on earlier calls in the same process, and the caller's argument lists must not be
+    modified: reference calls are evaluated on a fresh state, then again after each 'polluting' call (deprecated aliases, caller-owned
+    lists, every optional argument), and compared."""
+    import warnings
+    from bs4.dammit import UnicodeDammit, EncodingDetector
+    from bs4 import BeautifulSoup
+    refs = [
+        (b"caf\xc3\xa9", {}),
+        (b"\xef\xbb\xbfabc", {}),
+        ("Sacr\xe9 bleu".encode("latin-1"), {}),
+        (b"<meta charset='iso-8859-5'>\xd0\xd1", {"is_html": True}),
+        ("\u05e9\u05dc\u05d5\u05dd".encode("utf-8"), {}),
+        (b"\xff\xfea\x00b\x00", {}),
+        (b"plain ascii", {}),
+        (b"<?xml version='1.0' encoding='koi8-r'?>\xc1\xc2", {}),
+        ("na\u00efve".encode("utf-8"), {"known_definite_encodings": ["ascii"]}),
+        (b"\x93quoted\x94", {"user_encodings": ["utf-8"]}),
+        (b"abc \xe9", {"exclude_encodings": ["windows-1252"]}),
+    ]
+
+    def obs(markup, kw):
+        with warnings.catch_warnings():
+            warnings.simplefilter("ignore")
+            d = UnicodeDammit(markup, **{k: list(v) if isinstance(v, list) else v for k, v in kw.items()})
+            soup = BeautifulSoup(markup, "html.parser")
+        return (d.unicode_markup, d.original_encoding, d.contains_replacement_characters, d.declared_html_encoding,
+                list(EncodingDetector(markup, **{k: v for k, v in kw.items() if k in ("known_definite_encodings", "user_encodings", "exclude_encodings", "is_html")}).encodings),
+                soup.original_encoding, soup.decode())
+
+    before = [obs(m, kw) for m, kw in refs]
+    own = {"known": ["iso-8859-8"], "user": ["iso-8859-1"], "excl": ["utf-8"], "over": ["iso-8859-8", "iso-8859-1"]}
+    polluters = [
+        ("override_encodings alias", lambda: UnicodeDammit(b"abc", override_encodings=own["over"])),
+        ("known_definite_encodings list", lambda: UnicodeDammit(b"\xe9", known_definite_encodings=own["known"])),
+        ("user_encodings list", lambda: UnicodeDammit(b"\xe9", user_encodings=own["user"])),
+        ("exclude_encodings list", lambda: UnicodeDammit(b"\xe9", exclude_encodings=own["excl"])),
+        ("both aliases", lambda: UnicodeDammit(b"\xe9", known_definite_encodings=own["known"], override_encodings=own["over"])),
+        ("smart quotes", lambda: UnicodeDammit(b"\x93x\x94", ["windows-1252"], smart_quotes_to="html")),
+        ("constructor from_encoding", lambda: BeautifulSoup(b"\xe9", "html.parser", from_encoding="iso-8859-7", exclude_encodings=own["excl"])),
+        ("detector", lambda: list(EncodingDetector(b"\xef\xbb\xbfx", known_definite_encodings=own["known"], user_encodings=own["user"], exclude_encodings=own["excl"]).encodings)),
+        ("failing call", lambda: UnicodeDammit(b"\xff\xff", known_definite_encodings=["no-such-codec", "undefined"])),
+    ]
+    snapshot = {k: list(v) for k, v in own.items()}
+    for name, call in polluters:
+        for rep in range(2):
+            try:
+                with warnings.catch_warnings():
+                    warnings.simplefilter("ignore")
+                    call()
+            except Exception as e:   # noqa: BLE001
+                ctx.violation(f"history: the call '{name}' raised {type(e).__name__}: {e}", case={"history": [name]}, stream="history")
+            for k, v in own.items():
+                if v != snapshot[k]:
+                    ctx.violation(f"history: the call '{name}' modified the caller's own list argument {k}: {snapshot[k]} -> {v}",
+                                  case={"history": [name], "argument": k}, expected=snapshot[k], observed=list(v), stream="history")
+                    own[k][:] = snapshot[k]
+            after = [obs(m, kw) for m, kw in refs]
+            ctx.case(("hist", name, rep))
+            for (m, kw), a, b in zip(refs, before, after):
+                if a != b:
+                    j = next(i for i in range(len(a)) if a[i] != b[i])
+                    fields = ["unicode_markup", "original_encoding", "contains_replacement_characters", "declared_html_encoding",
+                              "EncodingDetector.encodings", "BeautifulSoup.original_encoding", "BeautifulSoup text"]
+                    ctx.violation(f"history: after an earlier call ('{name}') in the same process the same input is decoded differently: {fields[j]} "
+                                  f"was {a[j]!r}, now {b[j]!r}", case={"history": [name], "markup": repr(m), "kwargs": {k: v for k, v in kw.items()}},
+                                  expected=repr(a[j]), observed=repr(b[j]), stream="history")
+                    return
+    ctx.count("history:polluters", len(polluters))
+
+
 def run(ctx: Ctx):
     import multiprocessing as mp
     import bs4.dammit as bd
@@ -740,6 +812,7 @@ def run(ctx: Ctx):
         ctx.notes.append("chardet-like module present: disabled in-process for this run")
         bd.chardet_module = None
     _patch_feed()
+    history_stream(ctx)
     # corpus first
     corpus_dir = os.path.join(os.path.dirname(os.path.dirname(os.path.abspath(__file__))), "corpus", "C07")
     corpus = []
